@@ -42,6 +42,8 @@ def rust_type(d, params=None, lt="'static"):
         return "&'static [u8]"
     if k == "rawptr":
         return "*const u8"
+    if k == "deeppod":
+        return "probes::DeepPod"
     if k == "seriter":
         return f"SerIter<'static, {r(d['elem'])}, std::slice::Iter<'static, {r(d['elem'])}>>"
     if k == "rangefull":
